@@ -48,15 +48,16 @@ PATTERNS = [
 ]
 
 
-def _nodes_unit(pname, pat, nk):
-    @unit("C29", "Path.from_nodes[%s,nk=%s]" % (pname, nk), scope="shape:node pattern %s" % pname, expect_min=4)
+def _nodes_unit(pname, pat, nk, default_labels=False):
+    @unit("C29", "Path.from_nodes[%s,nk=%s%s]" % (pname, nk, ",default labels" if default_labels else ""), scope="shape:node pattern %s" % pname, expect_min=4)
     def _n(U):
         f = U.fn(F, "Path.from_nodes", globs=dict(np=Shim(), Iterable=Iterable), model=False)
 
         def body():
             coords = {j: [sreal("n%d_%d" % (j, c)) for c in range(3)] for j in pat if j is not None}
             nodes = [None if j is None else coords[j] for j in pat]
-            labs = ["L%d" % j for j in pat if j is not None]
+            labs = None if default_labels else ["L%d" % j for j in pat if j is not None]
+            lab_of = (lambda j: str(j + 1)) if default_labels else (lambda j: "L%d" % j)         # default labels: the nodes numbered from 1, gaps not counted
             nseg = sum(1 for a, b in zip(pat, pat[1:]) if a is not None and b is not None)
             nks = list(nk) if isinstance(nk, (list, tuple)) else [nk] * nseg
             out = f(PathStub, recip_lattice=rnp.eye(3), nodes=nodes, labels=labs, nk=(list(nk) if isinstance(nk, (list, tuple)) else nk))
@@ -65,18 +66,18 @@ def _nodes_unit(pname, pat, nk):
             seg = 0
             for a, b in zip(pat, pat[1:]):
                 if a is not None and b is not None:
-                    wlab[len(want)] = "L%d" % a
+                    wlab[len(want)] = lab_of(a)
                     n_ = nks[seg]
                     seg += 1
                     for t in range(n_ - 1):
                         want.append([coords[a][c] + (coords[b][c] - coords[a][c]) * t / (n_ - 1) for c in range(3)])
                 elif a is not None and b is None:
-                    wlab[len(want)] = "L%d" % a
+                    wlab[len(want)] = lab_of(a)
                     want.append(list(coords[a]))
                     wbr.append(len(want) - 1)
             last = [j for j in pat if j is not None][-1]
             want.append(list(coords[last]))
-            wlab[len(want) - 1] = "L%d" % last
+            wlab[len(want) - 1] = lab_of(last)
             K = out.K_list
             U.ensure("number of points", K.shape == (len(want), 3))
             ok = K.shape == (len(want), 3) and all(_valid(lift(K[i, c]) == lift(want[i][c])) for i in range(len(want)) for c in range(3))
@@ -89,6 +90,8 @@ def _nodes_unit(pname, pat, nk):
 for _pn, _pat in PATTERNS:
     _nodes_unit(_pn, _pat, 3)
 _nodes_unit("A-B-C", [0, 1, 2], 2)
+_nodes_unit("A-B|C-D|E-F", [0, 1, None, 2, 3, None, 4, 5], 3, default_labels=True)
+_nodes_unit("A|B-C", [0, None, 1, 2], 3, default_labels=True)
 _nodes_unit("A-B|C-D", [0, 1, None, 2, 3], [2, 5])
 _nodes_unit("A-B-C|D-E-F", [0, 1, 2, None, 3, 4, 5], [5, 2, 3, 9])       # dyadic sampling fractions (exact in floats)
 
